@@ -417,8 +417,8 @@ impl<C: Cfg> World<C> {
     /// 3 rev().count() of what is left.
     #[allow(clippy::too_many_arguments)]
     pub fn do_iter_ext(&mut self, v: usize, kind: u32, calls: &[bool], clone_at: usize, skips: &[u8], finish: u32, tr: &mut String) {
-        const NAMES: [&str; 8] = ["iter", "iter_mut", "(&v).into_iter", "(&mut v).into_iter", "typed.iter", "typed.iter_mut", "typed.as_slice.iter", "iter.clone"];
-        let kind = kind % 8;
+        const NAMES: [&str; 10] = ["iter", "iter_mut", "(&v).into_iter", "(&mut v).into_iter", "typed.iter", "typed.iter_mut", "typed.as_slice.iter", "iter.clone", "AnyVecRef.into_iter", "AnyVecMut.into_iter"];
+        let kind = kind % 10;
         let name = NAMES[kind as usize];
         let pat: String = calls.iter().map(|b| if *b { 'B' } else { 'F' }).collect();
         let _ = write!(tr, "{}(v{}, \"{}\"", name, v, pat);
@@ -521,6 +521,16 @@ impl<C: Cfg> World<C> {
                 let mut it = vec.downcast_ref::<C::T>().unwrap().as_slice().iter();
                 walk!(it, |x: &C::T| x.payload(), calls, out, 0usize, true);
                 finish!(it, |x: &C::T| x.payload());
+            }
+            8 => {
+                let mut it = vec.downcast_ref::<C::T>().unwrap().into_iter();
+                walk!(it, |x: &C::T| x.payload(), calls, out, 0usize, true);
+                finish!(it, |x: &C::T| x.payload());
+            }
+            9 => {
+                let mut it = vec.downcast_mut::<C::T>().unwrap().into_iter();
+                walk!(it, |x: &mut C::T| x.payload(), calls, out, 0usize, true);
+                finish!(it, |x: &mut C::T| x.payload());
             }
             _ => {
                 let get = |e: any_vec::element::ElementRef<C::Tr, C::M>| e.downcast_ref::<C::T>().and_then(|x| x.payload());
